@@ -451,7 +451,13 @@ func (client *client) readLoop() {
 				}
 			}
 		}
-		client.in <- packet
+		// Nobody takes packets from client.in once the connection is being torn down (DISCONNECT handled, error):
+		// do not wait for room in the channel then, or this goroutine - and with it Stop - never ends.
+		select {
+		case client.in <- packet:
+		case <-client.close:
+			return
+		}
 		// The packets that follow the CONNECT are for the established connection - except during enhanced
 		// authentication, where the client's AUTH packets belong to the handshake.
 		select {
